@@ -63,6 +63,8 @@ var lockTargets = []lockTarget{
 	{pkg: "components/providers/scenario", typ: "Provider", methods: []string{"Acquire", "Release"}},
 	{pkg: "core/aggregator/netsample", vars: []string{"samplePool"}},
 	{pkg: "components/providers/http/provider", typ: "Provider", methods: []string{"Acquire", "Release"}},
+	// the provider's request middlewares: UpdateRequest runs inside Acquire, i.e. in every instance's goroutine, on ONE object
+	{pkg: "components/providers/http/middleware/headerdate", typ: "Middleware", setup: []string{"InitMiddleware"}},
 	{pkg: "components/providers/http/decoders", typ: "uriDecoder", methods: []string{"Release"}},
 	{pkg: "components/providers/http/decoders", typ: "uripostDecoder", methods: []string{"Release"}},
 	{pkg: "components/providers/http/decoders", typ: "rawDecoder", methods: []string{"Release"}},
@@ -105,6 +107,29 @@ type lockRow struct {
 	write       bool
 	guard       string // Lean term
 	unguarded   bool   // resolved in the second pass (frozen or none)
+}
+
+// locksPromoted adds the fields promoted from embedded struct fields (outer names win, as in Go).
+func locksPromoted(st *types.Struct, fields map[string]*types.Var, depth int) {
+	if depth > 3 {
+		return
+	}
+	for i := 0; i < st.NumFields(); i++ {
+		f := st.Field(i)
+		if !f.Embedded() {
+			continue
+		}
+		inner, ok := derefType(f.Type()).Underlying().(*types.Struct)
+		if !ok {
+			continue
+		}
+		for j := 0; j < inner.NumFields(); j++ {
+			if _, have := fields[inner.Field(j).Name()]; !have {
+				fields[inner.Field(j).Name()] = inner.Field(j)
+			}
+		}
+		locksPromoted(inner, fields, depth+1)
+	}
 }
 
 func typeGuard(t types.Type) string {
@@ -653,6 +678,9 @@ func locksExtra(t *tr) string {
 			for i := 0; i < st.NumFields(); i++ {
 				s.fields[st.Field(i).Name()] = st.Field(i)
 			}
+			// fields promoted from embedded structs (`p.Middlewares` of a Provider that embeds its Config) are fields of the
+			// object as well
+			locksPromoted(st, s.fields, 0)
 		}
 		for _, v := range tgt.vars {
 			obj := p.Types.Scope().Lookup(v)
@@ -774,5 +802,7 @@ func locksExtra(t *tr) string {
 	b.WriteString(locksHandoverSites(t, scanned))
 	b.WriteString(locksPkgVars(t, scanned))
 	b.WriteString(locksSubstr(t, loaded[locksPostprocPkg]))
+	b.WriteString(locksAmmoFlows(t, scanned))
+	b.WriteString(locksPooledEscapes(t, scanned))
 	return b.String()
 }
